@@ -149,8 +149,8 @@ class SplitRowsOp(BaseOp):
                 df, event_params['onset_source'])
             add_events[self.anchor_column] = event
             self._add_durations(df, add_events, event_params['duration'])
-            if len(event_params['copy_columns']) > 0:
-                for column in event_params['copy_columns']:
+            if len(event_params.get('copy_columns', [])) > 0:
+                for column in event_params.get('copy_columns', []):
                     add_events[column] = df[column]
 
             # add_events['event_type'] = event
